@@ -578,6 +578,13 @@ def configs(tier):
             cf.append({"mapping": m, "n": n, "utd": False})
             if n % 2 == 0:
                 cf.append({"mapping": m, "n": n, "utd": True})
+    # large registers, symbolic checks only (canonical anticommutation relations and adjoints of all ladder operators): sizes on
+    # both sides of the structural boundaries of the tree-based encodings (BK: powers of 2; JKMN ternary tree: 4, 13, 40 modes)
+    for m in FULL:
+        for n in ((8, 9, 13, 14, 16, 17) if tier == "quick" else (8, 9, 12, 13, 14, 15, 16, 17, 27, 32, 33, 40, 41)):
+            cf.append({"mapping": m, "n": n, "utd": False, "big": True})
+            if n % 2 == 0:
+                cf.append({"mapping": m, "n": n, "utd": True, "big": True})
     for n in (4, 6):
         for utd in (False, True):
             for na in range(n // 2 + 1):
@@ -635,6 +642,8 @@ def work_items(cfg, part, tier, seed):
 
 def parts_of(cfg):
     dom = domain_of(cfg)
+    if cfg.get("big"):
+        return ["car"]
     if dom == "full":
         return ["car", "hom", "spec", "ham"]
     if dom == "scbk":
